@@ -485,12 +485,15 @@ int main(int argc, char **argv) {
   }
   Stats ST;
   if (!A.replay.empty()) {
+    const std::string rkey = replay_field(read_file(A.replay), "key");
+    Result RR(A);
+    replay_in_child(RR, rkey.empty() ? std::string("C16:replay") : rkey, [&]() -> uint64_t {
     const std::string txt = read_file(A.replay);
     const VCfg *c = find_cfg(cfgs, replay_field(txt, "cfg"));
     const std::string type = replay_field(txt, "type"), what = replay_field(txt, "what");
     if (!c) {
       printf("replay: unknown cfg (generator sets depend on --seed)\n");
-      return R.finish(A);
+      return (uint64_t)0;
     }
     if (what == "ray") {
       RayCase rc;
@@ -504,7 +507,10 @@ int main(int argc, char **argv) {
     for (auto &v : R.violations)
       printf("  VIOLATION %s :: %s\n", v.key.c_str(), v.detail.c_str());
     printf("replay: %" PRIu64 " violation(s)\n", R.violation_count);
-    return R.finish(A);
+    return R.violation_count;
+    });
+    printf("replay: %s\n", RR.violation_count ? "REPRODUCED" : "not reproduced");
+    return RR.finish(A);
   }
   const bool th = A.thorough();
   struct Task {
